@@ -7,6 +7,9 @@ import (
 	"fmt"
 	"sort"
 	"strings"
+	"time"
+
+	shop "github.com/flant/shell-operator/pkg/shell-operator"
 
 	"github.com/flant/shell-operator/pkg/task/queue"
 	simrt "verifsimrt"
@@ -792,4 +795,111 @@ func (r *OpRun) headMayAllowFailure(x *Exec) bool {
 		}
 	}
 	return false
+}
+
+// ---------------------------------------------------------------- C17
+
+func oracleC17(r *OpRun, calledAt, returnedAt time.Duration) {
+	s0 := r.obs.StopSeq
+	if s0 == 0 {
+		r.e.Viol("C17", "H0", "queues-not-stopped", "Shutdown() returned without stopping the task queues")
+		return
+	}
+	if d := returnedAt - calledAt; d > shop.WaitQueuesTimeout+time.Second {
+		r.e.Viol("C17", "H4", "shutdown-slow", "Shutdown() took %v of simulated time, the wait time-out is %v", d, shop.WaitQueuesTimeout)
+	}
+	after := map[string][]*Exec{}
+	inFlight := map[string]*Exec{}
+	total := 0
+	for _, x := range r.o.Execs {
+		if isWebhookExec(x) || len(x.Ctxs) == 0 {
+			continue
+		}
+		q := x.QueueSeen
+		if q == "" {
+			q = r.queueOf(x)
+		}
+		if q == "" || q == "?" {
+			q = "unknown:" + x.Hook
+		}
+		if x.StartSeq < s0 && (x.EndSeq == 0 || x.EndSeq > s0) {
+			inFlight[q] = x
+		}
+		if x.StartSeq > s0 {
+			after[q] = append(after[q], x)
+			total++
+		}
+	}
+	for q, xs := range after {
+		if strings.HasPrefix(q, "unknown:") {
+			continue
+		}
+		if len(xs) > 1 {
+			r.e.Viol("C17", "H1", "second-task-after-stop", "queue %q started %d executions after the stop request (#%d, #%d ...): only a task already picked may still run", q, len(xs), xs[0].N, xs[1].N)
+		}
+		if f := inFlight[q]; f != nil && len(xs) > 0 {
+			r.e.Viol("C17", "H1", "task-after-running-handler", "queue %q: execution #%d was running when the stop was requested, yet #%d started afterwards", q, f.N, xs[0].N)
+		}
+	}
+	nq := len(r.o.queueNames())
+	if total > nq {
+		r.e.Viol("C17", "H3", "executions-after-stop", "%d executions started after the stop request, there are only %d queues", total, nq)
+	}
+	// every worker terminates: status "stop" once its handler has returned
+	for _, qn := range r.o.queueNames() {
+		q := r.o.Op.TaskQueues.GetByName(qn)
+		if q == nil {
+			continue
+		}
+		if st := q.GetStatus(); st != "stop" {
+			r.e.Viol("C17", "H2", "worker-not-stopped", "queue %q has status %q after shutdown although no handler is running", qn, st)
+		}
+	}
+	simrt.Count("probe:shutdown-checked")
+	if len(inFlight) > 0 {
+		simrt.Count("probe:stop-while-handler-running")
+	}
+	if total > 0 {
+		simrt.Count("probe:picked-task-ran-after-stop")
+	}
+}
+
+// ---------------------------------------------------------------- C18
+
+func oracleC18(r *OpRun) {
+	for _, h := range r.sc.Hooks {
+		st, ok := h.Extra["settings"].(map[string]any)
+		if !ok {
+			continue
+		}
+		iv, _ := time.ParseDuration(fmt.Sprint(st["executionMinInterval"]))
+		burst, _ := st["executionBurst"].(int)
+		if iv <= 0 || burst <= 0 {
+			continue
+		}
+		var starts []time.Duration
+		var ns []int
+		for _, x := range r.o.Execs {
+			if x.Hook == h.Path && !isWebhookExec(x) {
+				starts = append(starts, x.Start)
+				ns = append(ns, x.N)
+			}
+		}
+		sort.Slice(starts, func(i, j int) bool { return starts[i] < starts[j] })
+		if len(starts) > burst {
+			simrt.Count("probe:rate-limited-hook-with-more-than-burst-executions")
+		}
+		for i := 0; i < len(starts); i++ {
+			for j := i + 1; j < len(starts); j++ {
+				n := j - i + 1
+				window := starts[j] - starts[i]
+				allowed := burst + int((window+iv-1)/iv)
+				if n > allowed {
+					r.e.Viol("C18", "R1", "rate-exceeded", "hook %s (interval %v, burst %d): %d executions started within %v (from %v), at most %d allowed", h.Path, iv, burst, n, window, starts[i], allowed)
+					i = len(starts)
+					break
+				}
+			}
+		}
+	}
 }
